@@ -124,7 +124,7 @@ Variable c : config.
 Variable n : nat.
 Hypothesis size_fixed : forall r, ssize c r = n.
 Hypothesis T1 : 1 <= nthreads c.
-Hypothesis GD : guard c = true.
+Hypothesis GD : fixed_code c.
 
 (** Simulation after a thread step that logs [e] (or nothing). *)
 Lemma sim_thread : forall st ms i th th' b' m e,
@@ -174,7 +174,7 @@ Lemma monitor_step : forall st ms l st',
   | None => Sim c n st' ms
   end.
 Proof.
-  intros st ms l st' I SM ST. pose proof ST as ST0. apply step_cases in ST.
+  intros st ms l st' I SM ST. pose proof ST as ST0. apply (step_cases _ _ _ _ (proj2 GD)) in ST.
   destruct ST as [G R|G R|k G F X|G F X|i th th' b' G N TC]; unfold step_event; try rewrite G.
   - (* start *)
     destruct SM as [L SS]. rewrite G in SS. split; auto. cbn [gp round ths].
@@ -196,7 +196,7 @@ Proof.
     destruct OK as (_ & _ & PL).
     eapply counters_returned; eauto. unfold panicked. rewrite M. reflexivity.
   - (* thread step *)
-    rewrite N.
+    rewrite N. rewrite (tprog_info c (round st) i (proj2 GD i)).
     pose proof I as [LI K]. destruct (K G) as (A & B & C).
     pose proof (C th (nth_error_In _ _ N)) as OK. rewrite size_fixed in OK.
     pose proof SM as [LM SS]. rewrite G in SS.
@@ -241,7 +241,7 @@ Proof.
       rewrite F, U, FL. cbn [andb].
       exists m. split; [exact Mi|]. split; [reflexivity|].
       simt (Some EPanic).
-      rewrite GD, EM. unfold counters, mon_upd, panicked; cbn. reflexivity.
+      rewrite (proj1 GD), EM. unfold counters, mon_upd, panicked; cbn. reflexivity.
     + (* non-wait action: its event; the check uses the invariant *)
       rewrite NA.
       destruct (prog_kind _ _ _ _ NA) as (_ & IW & F & _).
